@@ -343,9 +343,9 @@ def r16_5(run, model):
 
 def run(run, model):
     mir = Mir(run.facts)
-    r16_1(run, model, mir)
-    r16_2(run, model)
-    r16_3(run, model, mir)
-    r16_4(run, model)
-    r16_5(run, model)
+    run.try_rule(r16_1, model, mir)
+    run.try_rule(r16_2, model)
+    run.try_rule(r16_3, model, mir)
+    run.try_rule(r16_4, model)
+    run.try_rule(r16_5, model)
     run.assume("the typer resolves package-qualified names only through the dependency environments it is given (R16.5 keeps those equal to the imports)")
